@@ -443,3 +443,369 @@ Definition two_live (s : state) : Prop :=
 Lemma legacy_stale_close : exists ts s, run legacy_cfg init ts = Some s /\ panicked s = false /\ two_live s.
 Proof. exists stale_witness. eexists. split; [vm_compute; reflexivity|]. split; [reflexivity|].
   exists 1, 2. eexists. eexists. split; [discriminate|]. repeat split; reflexivity. Qed.
+
+(* ------------------------------------------------------------------ one live association per address (notifications identify the association) *)
+
+Lemma ended_app c a b : ended c (a ++ b) = ended c a || ended c b.
+Proof. apply existsb_app. Qed.
+
+Definition live_inv (s : state) : Prop :=
+  (forall c k, get s c = Some k -> (cphase k <> Running \/ sclosed k = true) -> ended c (trace s) = true) /\
+  (forall a c, In (a, c) (closeCh s) -> ended c (trace s) = true) /\
+  (forall c k, get s c = Some k -> ended c (trace s) = false -> lookup (caddr k) (table s) = Some c).
+
+Ltac ended_simpl :=
+  unfold with_conn, with_conn_note; cbn [trace conns table closeCh];
+  rewrite ?ended_app; cbn [ended existsb]; rewrite ?orb_false_r.
+
+Lemma live_A g s t s' :
+  (forall c k, get s c = Some k -> (cphase k <> Running \/ sclosed k = true) -> ended c (trace s) = true) ->
+  exec g s t = Some s' ->
+  (forall c k, get s' c = Some k -> (cphase k <> Running \/ sclosed k = true) -> ended c (trace s') = true).
+Proof.
+  intros A H. exec_cases H; intros cx kx G Hp; conn_cases G; ended_simpl; eqb_simpl.
+  all: try (rewrite (A _ _ ltac:(eassumption)); [reflexivity|]; cbn in Hp; auto; fail).
+  all: try (eapply A; [eassumption|]; cbn in Hp; auto; fail).
+  all: try (cbn in Hp; destruct Hp; congruence).
+  all: try (apply orb_true_r).
+  all: try (eapply A; [eassumption|left; congruence]).
+Qed.
+
+Lemma ended_mono c tr e : ended c tr = true -> ended c (tr ++ e) = true.
+Proof. intro H. rewrite ended_app, H. reflexivity. Qed.
+
+Lemma live_B g s t s' :
+  (forall c k, get s c = Some k -> (cphase k <> Running \/ sclosed k = true) -> ended c (trace s) = true) ->
+  (forall a c, In (a, c) (closeCh s) -> ended c (trace s) = true) ->
+  exec g s t = Some s' ->
+  (forall a c, In (a, c) (closeCh s') -> ended c (trace s') = true).
+Proof.
+  intros A B H. exec_cases H; intros ax cx I; unfold with_conn, with_conn_note in *; cbn [closeCh trace] in *.
+  all: try (apply in_app_or in I; destruct I as [I|[I|[]]]; [|inversion I; subst]).
+  all: try (apply ended_mono; eapply B; eauto; fail).
+  all: try (eapply B; eauto; fail).
+  all: try (rewrite ?app_nil_r; eapply B; eauto; fail).
+  all: try (apply ended_mono; eapply B; right; eauto; fail).
+  all: try (rewrite ended_app; cbn [ended existsb]; rewrite Nat.eqb_refl; apply orb_true_r).
+  all: try (rewrite app_nil_r; eapply A; [eassumption|left; congruence]).
+Qed.
+
+Lemma live_M g s t s' :
+  notify_identity g = true -> wf s ->
+  (forall c k, get s c = Some k -> (cphase k <> Running \/ sclosed k = true) -> ended c (trace s) = true) ->
+  (forall a c, In (a, c) (closeCh s) -> ended c (trace s) = true) ->
+  (forall c k, get s c = Some k -> ended c (trace s) = false -> lookup (caddr k) (table s) = Some c) ->
+  exec g s t = Some s' ->
+  (forall c k, get s' c = Some k -> ended c (trace s') = false -> lookup (caddr k) (table s') = Some c).
+Proof.
+  intros NI [WT WP] A B M H. exec_cases H; intros cx kx G Hp; conn_cases G; revert Hp; ended_simpl; eqb_simpl; intro Hp.
+  all: try (apply orb_false_elim in Hp; destruct Hp as [Hp Hq]).
+  all: try discriminate.
+  all: try (eapply M; eauto; fail).
+  all: try (cbn [caddr set_readq set_last set_phase set_rclosed set_sclosed]; eapply M; eauto; fail).
+  - rewrite lookup_remove. destruct (Nat.eqb (caddr kx) a) eqn:Q.
+    + apply Nat.eqb_eq in Q. subst a. exfalso. pose proof (M _ _ G Hp) as L. rewrite L in E3. inversion E3; subst c0.
+      apply Nat.eqb_eq in E5. subst c. rewrite (B _ _ (or_introl eq_refl)) in Hp. discriminate.
+    + eapply M; eauto.
+  - cbn [caddr new_conn]. rewrite lookup_cons, Nat.eqb_refl. reflexivity.
+  - rewrite lookup_cons. destruct (Nat.eqb (src p) (caddr kx)) eqn:Q.
+    + exfalso. apply Nat.eqb_eq in Q. pose proof (M _ _ G Hp) as L.
+      match goal with U : usable _ _ _ = None |- _ => rename U into UU end. unfold usable in UU. rewrite Q, L in UU. cbv beta iota in UU. rewrite G in UU.
+      destruct (skips_closed g && sclosed kx) eqn:SK; [|discriminate].
+      apply andb_prop in SK. destruct SK as [_ SK]. rewrite (A _ _ G (or_intror SK)) in Hp. discriminate.
+    + rewrite lookup_remove. rewrite Nat.eqb_sym in Q. rewrite Q. eapply M; eauto.
+Qed.
+
+
+
+
+Lemma live_inv_init : live_inv init.
+Proof. split; [|split]; cbn.
+  - intros [|c] k H; discriminate H.
+  - intros a c [].
+  - intros [|c] k H; discriminate H. Qed.
+
+Lemma live_inv_step g s t s' :
+  notify_identity g = true -> wf s -> live_inv s -> exec g s t = Some s' -> live_inv s'.
+Proof. intros NI W (A & B & M) H. split; [|split].
+  - eapply live_A; eauto. - eapply live_B; eauto. - eapply live_M; eauto. Qed.
+
+Lemma live_run g ts s : notify_identity g = true -> run g init ts = Some s -> wf s /\ live_inv s.
+Proof. intros NI H. eapply (run_inv (fun s => wf s /\ live_inv s) g) in H; [exact H| |split; [apply wf_init|apply live_inv_init]].
+  intros s0 t s1 [W L] E. split; [eapply wf_step|eapply live_inv_step]; eauto. Qed.
+
+(* two associations of one address that have neither seen EOF nor returned are the same one *)
+Lemma live_unique g ts s c1 c2 k1 k2 :
+  notify_identity g = true -> run g init ts = Some s ->
+  get s c1 = Some k1 -> get s c2 = Some k2 -> caddr k1 = caddr k2 ->
+  ended c1 (trace s) = false -> ended c2 (trace s) = false -> c1 = c2.
+Proof.
+  intros NI R G1 G2 A E1 E2. destruct (live_run _ _ _ NI R) as [_ (_ & _ & M)].
+  pose proof (M _ _ G1 E1) as L1. pose proof (M _ _ G2 E2) as L2. rewrite A in L1. congruence. Qed.
+
+(* ------------------------------------------------------------------ the boolean acceptance conditions hold for every trace of the model *)
+
+Lemma pkt_eqb_eq p q : pkt_eqb p q = true <-> p = q.
+Proof. unfold pkt_eqb. destruct p as [a i n], q as [b j m]; cbn. split.
+  - destruct (Nat.eqb i j) eqn:E1; [|discriminate]. destruct (Nat.eqb a b) eqn:E2; [|discriminate]. intro E3.
+    apply Nat.eqb_eq in E1, E2. apply N.eqb_eq in E3. congruence.
+  - intro H. inversion H; subst. rewrite !Nat.eqb_refl. apply N.eqb_refl. Qed.
+
+Lemma subseq_tail {A} (x : A) l1 l2 : subseq (x :: l1) l2 -> subseq l1 l2.
+Proof. intro H. eapply subseq_trans; [|exact H]. constructor. apply subseq_refl. Qed.
+
+Lemma subseqb_complete l2 : forall l1, subseq l1 l2 -> subseqb l1 l2 = true.
+Proof. induction l2 as [|y l2 IH]; intros l1 H.
+  - inversion H; subst. reflexivity.
+  - destruct l1 as [|x r1]; [reflexivity|]. cbn. destruct (pkt_eqb x y) eqn:E.
+    + apply IH. inversion H; subst; [assumption|]. eapply subseq_tail; eauto.
+    + inversion H; subst.
+      * assert (pkt_eqb y y = true) by (apply pkt_eqb_eq; reflexivity). congruence.
+      * apply IH. assumption. Qed.
+
+(* ---- the ENew events list the associations with their addresses ---- *)
+Definition news_inv (s : state) : Prop :=
+  (forall c a, In (c, a) (news (trace s)) -> c < length (conns s)) /\
+  (forall c k, get s c = Some k -> addr_in (news (trace s)) c = Some (caddr k)).
+
+Lemma addr_in_app nw x c : 
+  addr_in (nw ++ [x]) c = match addr_in nw c with Some a => Some a | None => if Nat.eqb (fst x) c then Some (snd x) else None end.
+Proof. unfold addr_in. destruct x as [cx ax]. induction nw as [|[cy ay] nw IH]; simpl.
+  - destruct (Nat.eqb cx c); reflexivity.
+  - destruct (Nat.eqb cy c); [reflexivity|exact IH]. Qed.
+
+Lemma addr_in_none nw c : (forall c' a, In (c', a) nw -> c' <> c) -> addr_in nw c = None.
+Proof. unfold addr_in. induction nw as [|[c' a] nw IH]; cbn; intro H; [reflexivity|].
+  destruct (Nat.eqb_spec c' c) as [->|N].
+  - exfalso. eapply H; [left; reflexivity|reflexivity].
+  - apply IH. intros. eapply H. right. eauto. Qed.
+
+Ltac news_simpl :=
+  unfold with_conn, with_conn_note; cbn [trace conns]; rewrite ?news_app; cbn [news flat_map app]; rewrite ?app_nil_r.
+
+Lemma news_inv_step g s t s' : news_inv s -> exec g s t = Some s' -> news_inv s'.
+Proof.
+  intros [N1 N2] H. split.
+  - pose proof (exec_len _ _ _ _ H) as Ln. intros c a. exec_cases H; news_simpl; intro I.
+    all: try (apply N1 in I; unfold with_conn, with_conn_note in Ln; cbn [conns] in Ln; lia).
+    apply in_app_or in I. destruct I as [I|[I|[]]].
+    + apply N1 in I. rewrite app_length. cbn. lia.
+    + inversion I; subst. rewrite app_length. cbn. lia.
+  - exec_cases H; intros cx kx G; conn_cases G; news_simpl.
+    all: try (cbn [caddr set_readq set_last set_phase set_rclosed set_sclosed]; eapply N2; eauto; fail).
+    + rewrite addr_in_app. rewrite addr_in_none; [cbn; rewrite Nat.eqb_refl; reflexivity|].
+      intros c' a I. apply N1 in I. lia.
+    + rewrite addr_in_app. rewrite (N2 _ _ G). reflexivity.
+Qed.
+
+Lemma news_inv_init : news_inv init.
+Proof. split; cbn; [tauto|]. intros [|c] k H; discriminate H. Qed.
+
+(* ---- ownership checker ---- *)
+Lemma own_ev_mono nw x e : own_ev nw e = true -> own_ev (nw ++ [x]) e = true.
+Proof. destruct e; cbn; auto; rewrite addr_in_app; destruct (addr_in nw c); auto; discriminate. Qed.
+
+Definition own_inv (s : state) : Prop :=
+  (forall c k p off, get s c = Some k -> last k = Some (p, off) -> src p = caddr k) /\
+  Forall (fun e => own_ev (news (trace s)) e = true) (trace s).
+
+Lemma readq_own s c k p : ord_inv s -> get s c = Some k -> In p (readq k) -> src p = caddr k.
+Proof. intros (I1 & _ & _) G I. destruct (I1 _ _ G) as [F S].
+  eapply subseq_In in S; [|apply in_or_app; right; exact I].
+  rewrite Forall_forall in F. auto. Qed.
+
+Lemma own_inv_step g s t s' : ord_inv s -> news_inv s -> own_inv s -> exec g s t = Some s' -> own_inv s'.
+Proof.
+  intros O [N1 N2] [L F] H. split.
+  - exec_cases H; intros cx kx px ox G Hl; conn_cases G;
+      cbn [last caddr set_readq set_last set_phase set_rclosed set_sclosed new_conn] in *; try discriminate; eauto.
+    all: try (inversion Hl; subst; eauto; fail).
+    all: try (inversion Hl; subst; eapply readq_own; eauto; match goal with E : readq _ = _ |- _ => rewrite E; left; reflexivity end).
+  - exec_cases H; news_simpl; rewrite ?app_nil_r; auto.
+    all: try (apply Forall_app; split; [assumption|constructor; [|constructor]]; cbn [own_ev]; auto).
+    all: try (rewrite (N2 _ _ ltac:(eassumption))).
+    all: try (apply Nat.eqb_refl).
+    all: try (apply Nat.eqb_eq; eauto; fail).
+    all: try (apply Nat.eqb_eq; eapply readq_own; eauto; match goal with E : readq _ = _ |- _ => rewrite E; left; reflexivity end).
+    apply Forall_app; split; [|constructor; [reflexivity|constructor]].
+    eapply Forall_impl; [|exact F]. intros e He. apply own_ev_mono. exact He.
+Qed.
+
+Lemma own_inv_init : own_inv init.
+Proof. split; [intros [|c] k p off H; discriminate H|constructor]. Qed.
+
+Definition news3 (s : state) : Prop :=
+  forall c a, In (c, a) (news (trace s)) -> exists k, get s c = Some k /\ caddr k = a.
+
+Lemma news3_step g s t s' : news3 s -> exec g s t = Some s' -> news3 s'.
+Proof.
+  intros N H.
+  assert (K : forall c a, In (c, a) (news (trace s)) -> exists k, get s' c = Some k /\ caddr k = a).
+  { intros c a I. destruct (N _ _ I) as (k & G & A). destruct (exec_caddr _ _ _ _ _ _ H G) as (k' & G' & A'). exists k'. split; congruence. }
+  intros c a. exec_cases H; revert K; news_simpl; intros K I; auto.
+  apply in_app_or in I. destruct I as [I|[I|[]]]; [auto|]. inversion I; subst.
+  eexists. split; [unfold get; cbn [conns]; rewrite nth_error_app2 by lia; rewrite Nat.sub_diag; reflexivity|reflexivity].
+Qed.
+
+Definition obs_inv (s : state) : Prop := wf s /\ ord_inv s /\ news_inv s /\ own_inv s /\ news3 s.
+
+Lemma obs_run g ts s : run g init ts = Some s -> obs_inv s.
+Proof. intro H. eapply (run_inv obs_inv g) in H; [exact H| |].
+  - intros s0 t s1 (W & O & N & Ow & N3) E. split; [|split; [|split; [|split]]].
+    + eapply wf_step; eauto.
+    + eapply ord_inv_step; eauto.
+    + eapply news_inv_step; eauto.
+    + eapply own_inv_step; eauto.
+    + eapply news3_step; eauto.
+  - split; [|split; [|split; [|split]]].
+    + apply wf_init. + apply ord_inv_init. + apply news_inv_init. + apply own_inv_init.
+    + intros c a [].
+Qed.
+
+(* the boolean conditions evaluated on recorded event logs hold for every trace of the model *)
+Lemma own_ok_run g ts s : run g init ts = Some s -> own_ok (trace s) = true.
+Proof. intro R. destruct (obs_run _ _ _ R) as (_ & _ & _ & [_ F] & _). unfold own_ok. cbv zeta.
+  apply forallb_forall. rewrite Forall_forall in F. exact F. Qed.
+
+Lemma order_ok_run g ts s : run g init ts = Some s -> order_ok (trace s) = true.
+Proof. intro R. destruct (obs_run _ _ _ R) as (_ & _ & _ & _ & N3). unfold order_ok.
+  apply forallb_forall. intros [c a] I. cbn [fst snd]. destruct (N3 _ _ I) as (k & G & <-).
+  apply subseqb_complete. eapply reads_in_order; eauto. Qed.
+
+(* ---- fresh_ok ---- *)
+Fixpoint acc_nw (nw : list (cid * addr)) (tr : list ev) : list (cid * addr) :=
+  match tr with [] => nw | e :: r => match e with ENew c a => acc_nw ((c, a) :: nw) r | _ => acc_nw nw r end end.
+Fixpoint acc_es (es : list cid) (tr : list ev) : list cid :=
+  match tr with [] => es | e :: r => match e with EEof c | ERet c => acc_es (c :: es) r | _ => acc_es es r end end.
+
+Lemma fresh_go_app tr1 tr2 : forall nw es,
+  fresh_go nw es (tr1 ++ tr2) = fresh_go nw es tr1 && fresh_go (acc_nw nw tr1) (acc_es es tr1) tr2.
+Proof. induction tr1 as [|e r IH]; intros nw es; [reflexivity|].
+  destruct e; cbn [app fresh_go acc_nw acc_es]; rewrite ?IH; auto. rewrite andb_assoc. reflexivity. Qed.
+
+Lemma acc_nw_in x tr : forall nw, In x (acc_nw nw tr) -> In x nw \/ In x (news tr).
+Proof. induction tr as [|e r IH]; intros nw I; [auto|].
+  destruct e; cbn [acc_nw] in I; cbn [news flat_map app]; try (apply IH in I; tauto).
+  apply IH in I. destruct I as [[I|I]|I]; [right; left; auto|auto|right; right; exact I]. Qed.
+
+Lemma acc_es_in c tr : forall es, nat_in c (acc_es es tr) = nat_in c es || ended c tr.
+Proof. induction tr as [|e r IH]; intros es; cbn [acc_es ended existsb]; [now rewrite orb_false_r|].
+  destruct e; rewrite ?IH; cbn [nat_in existsb]; auto.
+  - fold (nat_in c es). fold (ended c r). rewrite (Nat.eqb_sym c c0). destruct (Nat.eqb c0 c), (nat_in c es); reflexivity.
+  - fold (nat_in c es). fold (ended c r). rewrite (Nat.eqb_sym c c0). destruct (Nat.eqb c0 c), (nat_in c es); reflexivity.
+Qed.
+
+Lemma create_all_ended g s a c k :
+  live_inv s -> usable g s a = None -> get s c = Some k -> caddr k = a -> ended c (trace s) = true.
+Proof.
+  intros (A & _ & M) U G Ca. destruct (ended c (trace s)) eqn:E; [reflexivity|exfalso].
+  pose proof (M _ _ G E) as L. rewrite Ca in L. unfold usable in U. rewrite L, G in U.
+  destruct (skips_closed g && sclosed k) eqn:SK; [|discriminate].
+  apply andb_prop in SK. destruct SK as [_ SK]. rewrite (A _ _ G (or_intror SK)) in E. discriminate. Qed.
+
+Lemma fresh_ok_step g s t s' :
+  live_inv s -> news3 s -> fresh_ok (trace s) = true -> exec g s t = Some s' -> fresh_ok (trace s') = true.
+Proof.
+  intros LI N3 F H. unfold fresh_ok in *.
+  exec_cases H; unfold with_conn, with_conn_note; cbn [trace]; rewrite ?app_nil_r; auto;
+    rewrite fresh_go_app, F; cbn [fresh_go andb]; auto.
+  rewrite andb_true_r. apply forallb_forall. intros [c' a'] I. cbn [fst snd].
+  apply acc_nw_in in I. destruct I as [[]|I].
+  destruct (Nat.eqb_spec a' (src p)) as [->|Ne]; [|reflexivity]. cbn [negb orb].
+  rewrite acc_es_in. cbn [nat_in existsb orb].
+  destruct (N3 _ _ I) as (k & G & Ca). eapply create_all_ended; eauto.
+Qed.
+
+Lemma fresh_ok_run g ts s : notify_identity g = true -> run g init ts = Some s -> fresh_ok (trace s) = true.
+Proof. intros NI H.
+  eapply (run_inv (fun s => (wf s /\ live_inv s) /\ news3 s /\ fresh_ok (trace s) = true) g) in H; [apply H| |].
+  - intros s0 t s1 ((W & L) & N3 & F) E. split; [split|split].
+    + eapply wf_step; eauto. + eapply live_inv_step; eauto. + eapply news3_step; eauto. + eapply fresh_ok_step; eauto.
+  - split; [split; [apply wf_init|apply live_inv_init]|split; [intros c a []|reflexivity]].
+Qed.
+
+(* replies go to the association's own address; what it reads comes from that address *)
+Lemma writes_own g ts s c w a :
+  run g init ts = Some s -> In (EWrite c w a) (trace s) -> exists k, get s c = Some k /\ caddr k = a.
+Proof.
+  intros R I. destruct (obs_run _ _ _ R) as (_ & _ & [N1 N2] & [_ F] & N3).
+  rewrite Forall_forall in F. specialize (F _ I). cbn [own_ev] in F.
+  destruct (addr_in (news (trace s)) c) as [a'|] eqn:E; [|discriminate]. apply Nat.eqb_eq in F. subst a'.
+  unfold addr_in in E. destruct (find (fun x => Nat.eqb (fst x) c) (news (trace s))) as [[c' a']|] eqn:Fd; [|discriminate].
+  inversion E; subst a'. apply find_some in Fd. destruct Fd as [In' Eq]. cbn in Eq. apply Nat.eqb_eq in Eq. subst c'.
+  exact (N3 _ _ In'). Qed.
+
+Lemma reads_event_own g ts s c p f off len :
+  run g init ts = Some s -> In (ERead c p f off len) (trace s) -> exists k, get s c = Some k /\ src p = caddr k.
+Proof.
+  intros R I. destruct (obs_run _ _ _ R) as (_ & _ & [N1 N2] & [_ F] & N3).
+  rewrite Forall_forall in F. specialize (F _ I). cbn [own_ev] in F.
+  destruct (addr_in (news (trace s)) c) as [a'|] eqn:E; [|discriminate]. apply Nat.eqb_eq in F.
+  unfold addr_in in E. destruct (find (fun x => Nat.eqb (fst x) c) (news (trace s))) as [[c' a'']|] eqn:Fd; [|discriminate].
+  inversion E; subst a''. apply find_some in Fd. destruct Fd as [In' Eq]. cbn in Eq. apply Nat.eqb_eq in Eq. subst c'.
+  destruct (N3 _ _ In') as (k & G & Ca). exists k. split; congruence. Qed.
+
+(* as soon as Close has signalled closure, the next datagram from that address that the loop takes
+   starts a new association (code that looks at conn.closed before using the table entry) *)
+Lemma closed_creates g s p l c k :
+  skips_closed g = true ->
+  panicked s = false -> stopped s = false -> pending s = None -> packets s = QPkt p :: l ->
+  lookup (src p) (table s) = Some c -> get s c = Some k -> sclosed k = true ->
+  exists s', exec g s LoopRecv = Some s' /\
+    conns s' = conns s ++ [new_conn (src p)] /\
+    lookup (src p) (table s') = Some (length (conns s)) /\
+    pending s' = Some (p, length (conns s)).
+Proof.
+  intros SK P S Pe Pk L G C. unfold exec. rewrite P, S, Pe, Pk. unfold usable. rewrite L, G, SK, C. cbn [andb].
+  eexists. split; [reflexivity|]. cbn. rewrite lookup_cons, Nat.eqb_refl. auto. Qed.
+
+(* ------------------------------------------------------------------ the configuration read from the source *)
+
+Definition cop_known (o : cop) : bool := match o with COther => false | _ => true end.
+
+Lemma src_shape_ok :
+  forallb cop_known (close_ops src_cfg) = true /\
+  1 <= cap_packets src_cfg /\ 1 <= cap_close src_cfg /\ 1 <= cap_read src_cfg /\
+  existsb (fun o => match o with CNotify => true | _ => false end) (close_ops src_cfg) = true /\
+  read_eof_notifies src_cfg = true.
+Proof. vm_compute. repeat split; try reflexivity; repeat constructor. Qed.
+
+Lemma src_never_closes : never_closes src_cfg.
+Proof. unfold never_closes. vm_compute. intuition discriminate. Qed.
+
+Lemma src_notify_identity : notify_identity src_cfg = true.
+Proof. reflexivity. Qed.
+
+Lemma src_skips_closed : skips_closed src_cfg = true.
+Proof. reflexivity. Qed.
+
+Lemma src_no_panic ts s : run src_cfg init ts = Some s -> panicked s = false.
+Proof. apply never_closes_no_panic. exact src_never_closes. Qed.
+
+(* the histories that broke the old code, run on the configuration read from the source *)
+Lemma src_survives_panic_witness :
+  exists s, run src_cfg init panic_witness = Some s /\ panicked s = false /\ length (conns s) = 2.
+Proof. eexists. split; [vm_compute; reflexivity|]. split; reflexivity. Qed.
+
+Definition blocked_then_drop : list step :=
+  firstn 20 panic_witness_blocked ++ [LoopDrop].
+Lemma src_survives_blocked_witness :
+  exists s, run src_cfg init blocked_then_drop = Some s /\ panicked s = false /\ pending s = None.
+Proof. eexists. split; [vm_compute; reflexivity|]. split; reflexivity. Qed.
+
+(* two clients interleaved, one reads through a small buffer: who got what *)
+Definition demo : list step :=
+  [SockRecv (D 1 0 100%N); SockRecv (D 2 1 300%N); SockRecv (D 1 2 50%N); LoopRecv; LoopSend; LoopRecv; LoopSend; LoopRecv; LoopSend;
+   ConnRead 1 128%N; ConnRead 0 9000%N; ConnWrite 0 0; ConnRead 1 128%N; ConnRead 1 128%N; ConnWrite 1 1; ConnRead 0 9000%N;
+   HandlerReturn 0; CloseStep 0; CloseStep 0; CloseStep 0; CloseStep 0; LoopClose; SockRecv (D 1 3 10%N); LoopRecv; LoopSend; ConnRead 2 9000%N].
+Lemma demo_runs : exists s, run src_cfg init demo = Some s /\
+  reads_of 0 (trace s) = [D 1 0 100%N; D 1 2 50%N] /\ reads_of 1 (trace s) = [D 2 1 300%N] /\ reads_of 2 (trace s) = [D 1 3 10%N] /\
+  writes (trace s) = [(0, 0, 1); (1, 1, 2)] /\ news (trace s) = [(0, 1); (1, 2); (2, 1)] /\
+  accepts src_cfg (trace s) = true.
+Proof. eexists. split; [vm_compute; reflexivity|]. repeat split; vm_compute; reflexivity. Qed.
+
+(* the stale-notification history is harmless on the source configuration: association 1 keeps its entry *)
+Lemma src_stale_witness_harmless :
+  exists s, run src_cfg init (firstn 16 stale_witness ++ [SockRecv (D 7 3 8%N); LoopRecv; LoopSend; ConnRead 1 9000%N]) = Some s /\
+    length (conns s) = 2 /\ reads_of 1 (trace s) = [D 7 2 8%N; D 7 3 8%N].
+Proof. eexists. split; [vm_compute; reflexivity|]. split; reflexivity. Qed.
